@@ -231,8 +231,8 @@ class SymCOO:
     def __init__(self, data, rows=None, cols=None, shape=None, dtype=None):
         self.ndim = 2
         self._dense = None
-        if rows is None:            # coo_matrix(dense)
-            d = funcs._as_sarr(data.toarray() if isinstance(data, SymCOO) else data)
+        if rows is None:            # coo_matrix(dense) / coo_matrix(other sparse matrix)
+            d = funcs._as_sarr(data.toarray() if hasattr(data, 'toarray') and not isinstance(data, _np.ndarray) else data)
             if d.ndim != 2:
                 raise Unsupported('SymCOO from a non 2-D array')
             self._dense = d.copy()
@@ -302,7 +302,7 @@ class SymCOO:
         return SymCOO(list(self._d), list(self._r), list(self._c), self.shape, self.dtype)
 
     def sum(self, axis=None):
-        return self.toarray().sum(axis=axis)
+        return self._shadow().sum(axis=axis)
 
     @property
     def T(self):
@@ -310,14 +310,38 @@ class SymCOO:
             return SymCOO(self._dense.T)
         return SymCOO(list(self._d), list(self._c), list(self._r), self.shape[::-1], self.dtype)
 
-    def __add__(self, o):
-        return self.toarray() + (o.toarray() if isinstance(o, SymCOO) else o)
+    # arithmetic and conversions follow scipy's coo_matrix: they are delegated to the format-aware shadow (symnp/sparse.py)
+    def _shadow(self):
+        from . import sparse as _ss
+        return _ss.CLASSES['coo'](self.toarray())
 
-    def tocsr(self, copy=False):
-        return self
+    def __add__(self, o):
+        return self._shadow() + (o._shadow() if isinstance(o, SymCOO) else o)
+
+    __radd__ = __add__
+
+    def __sub__(self, o):
+        return self._shadow() - (o._shadow() if isinstance(o, SymCOO) else o)
 
     def __truediv__(self, o):
-        return SymCOO(self.toarray() / o)
+        r = self._shadow() / o
+        return SymCOO(r.toarray())
+
+    def tocsr(self, copy=False): return self._shadow().tocsr()
+    def tocsc(self, copy=False): return self._shadow().tocsc()
+    def tolil(self, copy=False): return self._shadow().tolil()
+    def todok(self, copy=False): return self._shadow().todok()
+    def asfptype(self): return self if self.dtype.kind == 'f' else SymCOO(self.toarray().astype(float))
+    def astype(self, dt, **k): return SymCOO(self.toarray().astype(dt))
+    def multiply(self, o): return self._shadow().multiply(o)
+    def dot(self, o): return self._shadow().dot(o._shadow() if isinstance(o, SymCOO) else o)
+    def maximum(self, o): return self._shadow().maximum(o)
+    def __lt__(self, o): return self._shadow() < o
+    def __gt__(self, o): return self._shadow() > o
+    __array_ufunc__ = None
+
+    def __rsub__(self, o):
+        return o - self._shadow()
 
 
 def sym_coo_matrix(arg1, shape=None, dtype=None, copy=False):
